@@ -1,6 +1,6 @@
 #!/usr/bin/env python3
 """Writes the C20 probe catalogue /verif/probes/*.rs (one rule per file).  The .rs files are the
-deliverable (they are committed and read by tools/props/c20.py); this script only keeps the ~100
+deliverable (they are committed and read by tools/props/c20.py); this script only keeps the ~900
 tiny programs consistent.  Run it again after editing the tables below."""
 import os, sys
 HERE = os.path.dirname(os.path.abspath(__file__))
@@ -614,6 +614,384 @@ probe("marker_safe_trait_rejects_unsafe_impl", "C20_unsafe_markers", "unsafe-imp
       "struct Names;\nunsafe impl easy_ml::interop::DimensionNames for Names {\n    fn names(&self) -> [&'static str; 2] { [\"a\", \"b\"] }\n}\nfn main() {}\n")
 probe("marker_safe_trait_safe_impl_ok", "C20_unsafe_markers", "safe-impl interop::DimensionNames", "compile",
       "struct Names;\nimpl easy_ml::interop::DimensionNames for Names {\n    fn names(&self) -> [&'static str; 2] { [\"a\", \"b\"] }\n}\nfn main() {}\n")
+
+
+# =================================================================== session 3 extension
+# (iii) Send AND Sync, as separate probes, for every public type family:
+#       <n>_send / <n>_sync must compile at f64; <n>_rc_not_send / <n>_cell_not_sync must be rejected
+#       (E0277) at an element type that is not Send (Rc<f64>) / not Sync (Cell<f64>) where the type is
+#       generic over its element.  Probes that exist already under the same name are kept.
+def auto_family(n, rt, mt, generic=True, rule="C20_send_sync_iff", neg_send=None, neg_sync=None):
+    def add(name, *a):
+        if name not in PROBES:
+            auto(name, rule, *a)
+    add(n + "_send", "send", rt.format(e="f64"), mt.format(m="f64"), True)
+    add(n + "_sync", "sync", rt.format(e="f64"), mt.format(m="f64"), True)
+    if generic:
+        add(n + "_rc_not_send", "send", rt.format(e="Rc<f64>"), mt.format(m="Rc"), False)
+        add(n + "_cell_not_sync", "sync", rt.format(e="Cell<f64>"), mt.format(m="Cell"), False)
+
+
+for n, rt, mt in ADAPTORS:
+    auto_family(n, rt, mt)
+IO = "easy_ml::interop::"
+auto_family("matrix_view_over_matrix_ref_tensor", "MatrixView<{e}, %sMatrixRefTensor<{e}, Tensor<{e}, 2>>>" % IO,
+            "%s<{m}, MatrixRefTensor<{m}, %s<{m}>>>" % (MV, T))
+auto_family("matrix_view_over_borrowed_matrix_ref_tensor", "MatrixView<{e}, %sMatrixRefTensor<{e}, &'static Tensor<{e}, 2>>>" % IO,
+            "%s<{m}, MatrixRefTensor<{m}, &%s<{m}>>>" % (MV, T))
+auto_family("matrix_ref_tensor_borrowed", "%sMatrixRefTensor<{e}, &'static Tensor<{e}, 2>>" % IO, "MatrixRefTensor<{m}, &%s<{m}>>" % T)
+auto_family("tensor_view_over_tensor_ref_matrix", "TensorView<{e}, %sTensorRefMatrix<{e}, Matrix<{e}>, %sRowAndColumn>, 2>" % (IO, IO),
+            "%s<{m}, TensorRefMatrix<{m}, %s<{m}>, RowAndColumn>>" % (TV, M))
+auto_family("tensor_view_over_borrowed_tensor_ref_matrix",
+            "TensorView<{e}, %sTensorRefMatrix<{e}, &'static Matrix<{e}>, %sRowAndColumn>, 2>" % (IO, IO),
+            "%s<{m}, TensorRefMatrix<{m}, &%s<{m}>, RowAndColumn>>" % (TV, M))
+auto_family("tensor_ref_matrix_borrowed", "%sTensorRefMatrix<{e}, &'static Matrix<{e}>, %sRowAndColumn>" % (IO, IO),
+            "TensorRefMatrix<{m}, &%s<{m}>, RowAndColumn>" % M)
+auto_family("matrix_range_over_matrix_ref_tensor", "MatrixRange<{e}, %sMatrixRefTensor<{e}, Tensor<{e}, 2>>>" % IO,
+            "MatrixRange<{m}, MatrixRefTensor<{m}, %s<{m}>>>" % T)
+auto_family("tensor_view_owned", "TensorView<{e}, Tensor<{e}, 2>, 2>", "%s<{m}, %s<{m}>>" % (TV, T))
+auto_family("matrix_view_owned", "MatrixView<{e}, Matrix<{e}>>", "%s<{m}, %s<{m}>>" % (MV, M))
+auto_family("tensor_view_mut", "TensorView<{e}, &'static mut Tensor<{e}, 2>, 2>", "%s<{m}, &mut %s<{m}>>" % (TV, T))
+auto_family("matrix_view_mut", "MatrixView<{e}, &'static mut Matrix<{e}>>", "%s<{m}, &mut %s<{m}>>" % (MV, M))
+auto_family("tensor_view_over_range", "TensorView<{e}, TensorRange<{e}, &'static Tensor<{e}, 2>, 2>, 2>",
+            "%s<{m}, TensorRange<{m}, &%s<{m}>>>" % (TV, T))
+auto_family("trace", "Trace<{e}>", "differentiation::Trace<{m}>")
+auto_family("derivatives", "Derivatives<{e}>", "Derivatives<{m}>")
+LA = "easy_ml::linear_algebra::"
+DI = "easy_ml::distributions::"
+for nm in ("QRDecomposition", "QRDecompositionTensor", "LDLTDecomposition", "LDLTDecompositionTensor"):
+    low = "".join("_" + c.lower() if c.isupper() and i and not nm[i - 1].isupper() else c.lower() for i, c in enumerate(nm))
+    auto_family(low, LA + nm + "<{e}>", "linear_algebra::" + nm + "<{m}>")
+auto_family("gaussian", DI + "Gaussian<{e}>", "distributions::Gaussian<{m}>")
+auto_family("multivariate_gaussian", DI + "MultivariateGaussian<{e}>", "distributions::MultivariateGaussian<{m}>")
+auto_family("multivariate_gaussian_tensor", DI + "MultivariateGaussianTensor<{e}>", "distributions::MultivariateGaussianTensor<{m}>")
+auto_family("gaussian_error", DI + "MultivariateGaussianError<{e}>", "MultivariateGaussianError<{m}>")
+# (differentiation::functions::{Addition, ...} are `pub struct`s in a PRIVATE module that nothing re-exports: a
+# client cannot name them, so they have no probes; the table entry is proved in C20_send_sync_iff)
+# plain data and error types (not generic over an element type): Send and Sync
+for n, rt, mt in (
+        ("invalid_shape_error", "InvalidShapeError<3>", "tensors::InvalidShapeError"),
+        ("invalid_dimensions_error", "easy_ml::tensors::InvalidDimensionsError<3, 2>", "tensors::InvalidDimensionsError"),
+        ("indexing_invalid_dimensions_error", "easy_ml::tensors::indexing::InvalidDimensionsError<3>", "tensors::indexing::InvalidDimensionsError"),
+        ("index_range_validation_error", "IndexRangeValidationError<3, 2>", "IndexRangeValidationError"),
+        ("strict_index_range_validation_error", "StrictIndexRangeValidationError<3, 2>", "StrictIndexRangeValidationError"),
+        ("scalar_conversion_error", "easy_ml::matrices::ScalarConversionError", "ScalarConversionError"),
+        ("tensor_data_layout", "easy_ml::tensors::views::DataLayout<2>", "tensors::views::DataLayout"),
+        ("matrix_data_layout", "easy_ml::matrices::views::DataLayout", "matrices::views::DataLayout"),
+        ("index_range", "easy_ml::matrices::views::IndexRange", "IndexRange"),
+        ("reverse_flags", "easy_ml::matrices::views::Reverse", "matrices::views::reverse::Reverse"),
+        ("slice", "easy_ml::matrices::slices::Slice", "matrices::slices::Slice"),
+        ("slice2d", "easy_ml::matrices::slices::Slice2D", "Slice2D"),
+        ("slice2d_builder_empty", "easy_ml::matrices::slices::EmptySlice2DBuilder", "EmptySlice2DBuilder"),
+        ("slice2d_builder_row", "easy_ml::matrices::slices::RowSlice2DBuilder", "RowSlice2DBuilder"),
+        ("slice2d_builder_column", "easy_ml::matrices::slices::ColumnSlice2DBuilder", "ColumnSlice2DBuilder"),
+        ("row_and_column", IO + "RowAndColumn", "RowAndColumn"),
+        ("shape_iterator", "ShapeIterator<3>", TI + "ShapeIterator")):
+    auto_family(n, rt, mt, generic=False)
+
+
+# iterators: the four probes, with the negative at the SOURCE's element type (Matrix<Rc> / Matrix<Cell>)
+def iter_family(n, rt, mt, send_cell=None):
+    """rt / mt have {e}; send_cell: does `Send` hold at e = Cell<f64> (shared borrows: no, mutable / owned: yes)"""
+    def add(name, *a):
+        if name not in PROBES:
+            auto(name, "C20_send_sync_iff", *a)
+    add(n + "_send", "send", rt.format(e="f64"), mt.format(m="f64"), True)
+    add(n + "_sync", "sync", rt.format(e="f64"), mt.format(m="f64"), True)
+    add(n + "_rc_not_send", "send", rt.format(e="Rc<f64>"), mt.format(m="Rc"), False)
+    add(n + "_cell_not_sync", "sync", rt.format(e="Cell<f64>"), mt.format(m="Cell"), False)
+    if send_cell is not None:
+        add(n + ("_cell_send" if send_cell else "_cell_not_send"), "send", rt.format(e="Cell<f64>"), mt.format(m="Cell"), send_cell)
+
+
+def low_name(it):
+    return "".join("_" + c.lower() if c.isupper() else c for c in it).lstrip("_")
+
+
+for it in ("ColumnIterator", "RowIterator", "ColumnMajorIterator", "RowMajorIterator", "DiagonalIterator",
+           "ColumnReferenceIterator", "RowReferenceIterator", "ColumnMajorReferenceIterator", "RowMajorReferenceIterator",
+           "DiagonalReferenceIterator"):
+    iter_family("matrix_" + low_name(it), it + "<'static, {e}, Matrix<{e}>>", MI + it + "<{m}, %s<{m}>>" % M, send_cell=False)
+for it in ("ColumnMajorReferenceMutIterator", "RowMajorReferenceMutIterator", "DiagonalReferenceMutIterator",
+           "ColumnReferenceMutIterator", "RowReferenceMutIterator"):
+    iter_family("matrix_" + low_name(it), it + "<'static, {e}, Matrix<{e}>>", MI + it + "<{m}, %s<{m}>>" % M, send_cell=True)
+for it in ("ColumnMajorOwnedIterator", "RowMajorOwnedIterator"):
+    iter_family("matrix_" + low_name(it), it + "<{e}, Matrix<{e}>>", MI + it + "<{m}, %s<{m}>>" % M, send_cell=True)
+iter_family("tensor_iterator", "TensorIterator<'static, {e}, Tensor<{e}, 2>, 2>", TI + "TensorIterator<{m}, %s<{m}>>" % T, send_cell=False)
+iter_family("tensor_reference_iterator", "TensorReferenceIterator<'static, {e}, Tensor<{e}, 2>, 2>",
+            TI + "TensorReferenceIterator<{m}, %s<{m}>>" % T, send_cell=False)
+iter_family("tensor_reference_mut_iterator", "TensorReferenceMutIterator<'static, {e}, Tensor<{e}, 2>, 2>",
+            TI + "TensorReferenceMutIterator<{m}, %s<{m}>>" % T, send_cell=True)
+iter_family("tensor_owned_iterator", "TensorOwnedIterator<{e}, Tensor<{e}, 2>, 2>", TI + "TensorOwnedIterator<{m}, %s<{m}>>" % T, send_cell=True)
+# iterators over a VIEW source (S = TensorView / MatrixView over a borrowed container)
+iter_family("tensor_iterator_over_view", "TensorIterator<'static, {e}, TensorView<{e}, &'static Tensor<{e}, 2>, 2>, 2>",
+            TI + "TensorIterator<{m}, %s<{m}, &%s<{m}>>>" % (TV, T), send_cell=False)
+iter_family("matrix_row_major_iterator_over_range", "RowMajorIterator<'static, {e}, MatrixRange<{e}, &'static Matrix<{e}>>>",
+            MI + "RowMajorIterator<{m}, MatrixRange<{m}, &%s<{m}>>>" % M, send_cell=False)
+# WithIndex wrappers
+iter_family("with_index_tensor_iterator", "WithIndex<TensorIterator<'static, {e}, Tensor<{e}, 2>, 2>>",
+            "WithIndex<" + TI + "TensorIterator<{m}, %s<{m}>>>" % T, send_cell=False)
+iter_family("with_index_tensor_reference_mut_iterator", "WithIndex<TensorReferenceMutIterator<'static, {e}, Tensor<{e}, 2>, 2>>",
+            "WithIndex<" + TI + "TensorReferenceMutIterator<{m}, %s<{m}>>>" % T, send_cell=True)
+iter_family("with_index_tensor_owned_iterator", "WithIndex<TensorOwnedIterator<{e}, Tensor<{e}, 2>, 2>>",
+            "WithIndex<" + TI + "TensorOwnedIterator<{m}, %s<{m}>>>" % T, send_cell=True)
+iter_family("with_index_row_major_iterator", "WithIndex<RowMajorIterator<'static, {e}, Matrix<{e}>>>",
+            "WithIndex<" + MI + "RowMajorIterator<{m}, %s<{m}>>>" % M, send_cell=False)
+iter_family("with_index_column_major_reference_iterator", "WithIndex<ColumnMajorReferenceIterator<'static, {e}, Matrix<{e}>>>",
+            "WithIndex<" + MI + "ColumnMajorReferenceIterator<{m}, %s<{m}>>>" % M, send_cell=False)
+iter_family("with_index_row_major_reference_mut_iterator", "WithIndex<RowMajorReferenceMutIterator<'static, {e}, Matrix<{e}>>>",
+            "WithIndex<" + MI + "RowMajorReferenceMutIterator<{m}, %s<{m}>>>" % M, send_cell=True)
+iter_family("with_index_column_major_owned_iterator", "WithIndex<ColumnMajorOwnedIterator<{e}, Matrix<{e}>>>",
+            "WithIndex<" + MI + "ColumnMajorOwnedIterator<{m}, %s<{m}>>>" % M, send_cell=True)
+# the tape holders: neither, both halves
+RCN = "C20_record_containers_not_send_nor_sync"
+for n, tr, rt, mt in (
+        ("as_records_not_sync", "sync", "AsRecords<'static, std::vec::IntoIter<(f64, usize)>, f64>", "AsRecords<Vec<(f64, f64)>, f64>"),
+        ("record_iterator_error_not_sync", "sync", "InvalidRecordIteratorError<'static, f64, 1>", "InvalidRecordIteratorError<f64>"),
+        ("inconsistent_history_not_send", "send", "InconsistentHistory<'static, f64>", "InconsistentHistory<f64>"),
+        ("record_tensor_over_view_not_send", "send", "RecordTensor<'static, f64, TensorView<(f64, usize), Tensor<(f64, usize), 2>, 2>, 2>",
+         "RecordTensor<f64, %s<(f64, f64), %s<(f64, f64)>>>" % (TV, T)),
+        ("tensor_of_records_not_send", "send", "Tensor<Record<'static, f64>, 1>", T + "<differentiation::Record<f64>>"),
+        ("tensor_of_records_not_sync", "sync", "Tensor<Record<'static, f64>, 1>", T + "<differentiation::Record<f64>>"),
+        ("matrix_of_records_not_send", "send", "Matrix<Record<'static, f64>>", M + "<differentiation::Record<f64>>"),
+        ("vec_of_records_not_sync", "sync", "Vec<Record<'static, f64>>", "Vec<differentiation::Record<f64>>")):
+    auto(n, RCN if "Record<" not in rt.split("<")[0] and not rt.startswith(("Tensor<", "Matrix<", "Vec<")) else "C20_record_not_send_nor_sync",
+         tr, rt, mt, False)
+auto("tensor_of_tapes_send", "C20_tape_send_iff", "send", "Tensor<WengertList<f64>, 1>", T + "<" + WLm + "<f64>>", True)
+auto("tensor_of_tapes_not_sync", "C20_tape_not_sync", "sync", "Tensor<WengertList<f64>, 1>", T + "<" + WLm + "<f64>>", False)
+# sharing a view of a tensor-as-matrix between threads (the documented usage seeded change C20-u2 breaks)
+probe("thread_share_matrix_view_of_tensor", "C20_send_sync_iff", "sync %s<f64, MatrixRefTensor<f64, %s<f64>>>" % (MV, T), "compile", """
+fn main() {
+    let tensor = Tensor::from([("row", 2), ("column", 3)], vec![1.0f64, 2.0, 3.0, 4.0, 5.0, 6.0]);
+    let view = MatrixView::from(MatrixRefTensor::from(tensor));
+    let shared = &view;
+    std::thread::scope(|scope| {
+        scope.spawn(move || shared.row_iter(0).sum::<f64>());
+        scope.spawn(move || shared.row_iter(1).sum::<f64>());
+    });
+}
+""", "use easy_ml::interop::MatrixRefTensor;\nuse easy_ml::matrices::views::MatrixView;\nuse easy_ml::tensors::Tensor;\n")
+probe("thread_share_tensor_view_of_matrix", "C20_send_sync_iff", "sync %s<f64, TensorRefMatrix<f64, %s<f64>, RowAndColumn>>" % (TV, M), "compile", """
+fn main() {
+    let matrix = Matrix::from(vec![vec![1.0f64, 2.0], vec![3.0, 4.0]]);
+    let view = TensorView::from(TensorRefMatrix::from(matrix).unwrap());
+    let shared = &view;
+    std::thread::scope(|scope| {
+        scope.spawn(move || shared.iter().sum::<f64>());
+        scope.spawn(move || shared.iter().count());
+    });
+}
+""", "use easy_ml::interop::TensorRefMatrix;\nuse easy_ml::tensors::views::TensorView;\nuse easy_ml::matrices::Matrix;\n")
+probe("thread_move_matrix_view_of_tensor", "C20_send_sync_iff", "send %s<f64, MatrixRefTensor<f64, %s<f64>>>" % (MV, T), "compile", """
+fn main() {
+    let tensor = Tensor::from([("row", 2), ("column", 3)], vec![1.0f64, 2.0, 3.0, 4.0, 5.0, 6.0]);
+    let view = MatrixView::from(MatrixRefTensor::from(tensor));
+    let h = std::thread::spawn(move || view.row_iter(0).sum::<f64>());
+    assert_eq!(h.join().unwrap(), 6.0);
+}
+""", "use easy_ml::interop::MatrixRefTensor;\nuse easy_ml::matrices::views::MatrixView;\nuse easy_ml::tensors::Tensor;\n")
+
+# (i) aliasing and lifetimes, one probe per family and per applicable error code.
+#     shared borrow alive:  E0502 container mutated, E0505 moved (dropped), E0506 reassigned, E0597 outlived
+#     mutable borrow alive: E0499 second mutable borrow, E0502 shared read, E0505, E0506, E0597
+NEW_T2 = 'Tensor::from([("r", 2), ("c", 2)], vec![1.0f64, 2.0, 3.0, 4.0])'
+U_ALL = ("use easy_ml::tensors::Tensor;\nuse easy_ml::tensors::views::*;\nuse easy_ml::tensors::indexing::*;\n"
+         "use easy_ml::matrices::Matrix;\nuse easy_ml::matrices::views::{MatrixView, MatrixRange, MatrixReverse, Reverse};\n"
+         "use easy_ml::matrices::iterators::*;\nuse easy_ml::interop::{MatrixRefTensor, TensorRefMatrix};\n"
+         "use easy_ml::differentiation::{Record, RecordMatrix, RecordTensor, WengertList};\n")
+BORROW = "C20_adaptors_carry_argument_borrow"
+
+
+def body(*stmts):
+    return "\nfn main() {\n" + "".join("    %s;\n" % x for x in stmts) + "}\n"
+
+
+def family(key, query, mk, use, mutable, rule, c="t", new=NEW_T2, mutate=None, read=None, again=None, pre="", skip=()):
+    """key: probe name stem; query: `X` for conflict / outlive (a declaration) or a concrete type (then the
+    -type queries are used); mk: expression building the value from the container `c`; use: expression using `v`."""
+    typed = "<" in query or "&" in query
+    qc = ("conflict-type " if typed else "conflict ") + query
+    qo = ("outlive-type " if typed else "outlive ") + query
+    mutate = mutate or {"t": "t.map_mut(|x| x + 1.0)", "m": "m.set(0, 0, 5.0)"}[c]
+    read = read or {"t": "let n = t.iter().count()", "m": "let n = m.get(0, 0)"}[c]
+    again = again or mutate
+    decl = "%slet mut %s = %s" % (pre, c, new)
+
+    def add(code, name, *stmts):
+        full = "%s_%s" % (key, name)
+        if code in skip or full in PROBES:
+            return
+        probe(full, rule, qc, "error " + code, body(decl, "let v = " + mk, *stmts), U_ALL)
+    if mutable:
+        add("E0499", "second_mutable_borrow", again, "let _ = " + use)
+        add("E0502", "read_while_alive", read, "let _ = " + use)
+    else:
+        add("E0502", "mutated_while_alive", mutate, "let _ = " + use)
+    add("E0505", "moved_while_alive", "drop(%s)" % c, "let _ = " + use)
+    add("E0506", "replaced_while_alive", "%s = %s" % (c, new), "let _ = " + use)
+    full = key + "_outlives_source"
+    if "E0597" not in skip and full not in PROBES:
+        probe(full, rule, qo, "error E0597",
+              "\nfn main() {\n    let v;\n    {\n        %s;\n        v = %s;\n    }\n    let _ = %s;\n}\n" % (decl, mk, use), U_ALL)
+    if not mutable:
+        full = key + "_read_while_alive_ok"
+        if full not in PROBES:
+            probe(full, rule, "valid", "compile", body(decl, "let v = " + mk, read, "let _ = " + use), U_ALL)
+
+
+Tm = T + "<f64>"
+Mm = M + "<f64>"
+BC = "C20_borrow_carried"
+# ---- tensor iterators (and their WithIndex wrappers)
+family("fam_tensor_iter", TI + "TensorIterator", "t.iter()", "v.count()", False, BC)
+family("fam_tensor_iter_reference", TI + "TensorReferenceIterator", "t.iter_reference()", "v.count()", False, BC)
+family("fam_tensor_iter_reference_mut", TI + "TensorReferenceMutIterator", "t.iter_reference_mut()", "v.count()", True, BC)
+family("fam_tensor_iter_with_index", "WithIndex<%sTensorIterator<f64, %s>>" % (TI, Tm), "t.iter().with_index()", "v.count()", False,
+       "C20_adaptors_store_source")
+family("fam_tensor_iter_reference_with_index", "WithIndex<%sTensorReferenceIterator<f64, %s>>" % (TI, Tm),
+       "t.iter_reference().with_index()", "v.count()", False, "C20_adaptors_store_source")
+family("fam_tensor_iter_reference_mut_with_index", "WithIndex<%sTensorReferenceMutIterator<f64, %s>>" % (TI, Tm),
+       "t.iter_reference_mut().with_index()", "v.count()", True, "C20_adaptors_store_source")
+# ---- tensor views and adaptors over a shared borrow
+TVm = TV + "<f64, %s>"
+for key, mk, src in (
+        ("view", "t.view()", "&" + Tm),
+        ("view_from", "TensorView::from(&t)", "&" + Tm),
+        ("range", 't.range([("r", 0..1)]).unwrap()', "TensorRange<f64, &%s>" % Tm),
+        ("mask", 't.mask([("r", 0..1)]).unwrap()', "TensorMask<f64, &%s>" % Tm),
+        ("reverse", 't.reverse(&["r"])', "TensorReverse<f64, &%s>" % Tm),
+        ("rename_view", 't.rename_view(["a", "b"])', "TensorRename<f64, &%s>" % Tm),
+        ("select", 't.select([("r", 0)])', "TensorIndex<f64, &%s>" % Tm),
+        ("expand", 't.expand([(0, "z")])', "TensorExpansion<f64, &%s>" % Tm),
+        ("transpose_view", 't.transpose_view(["c", "r"])', "tensors::indexing::TensorTranspose<f64, &%s>" % Tm),
+        ("stack", 'TensorView::from(TensorStack::<f64, (_, _), 2>::from((&t, &t), (0, "s")))', "TensorStack<f64, (&%s, &%s)>" % (Tm, Tm)),
+        ("chain", 'TensorView::from(TensorChain::<f64, (_, _), 2>::from((&t, &t), "r"))', "TensorChain<f64, (&%s, &%s)>" % (Tm, Tm)),
+        ("range_of_view", 't.view().range_owned([("r", 0..1)]).unwrap()', "TensorRange<f64, %s>" % (TVm % ("&" + Tm)))):
+    family("fam_tensor_" + key, TVm % src, mk, "v.iter().count()", False, BORROW)
+family("fam_tensor_index_by", "tensors::indexing::TensorAccess<f64, &%s>" % Tm, 't.index_by(["c", "r"])', "v.iter().count()", False, BORROW)
+family("fam_tensor_index", "tensors::indexing::TensorAccess<f64, &%s>" % Tm, "t.index()", "v.iter().count()", False, BORROW)
+family("fam_tensor_access_from", "tensors::indexing::TensorAccess<f64, &%s>" % Tm, 'TensorAccess::from(&t, ["c", "r"])', "v.iter().count()",
+       False, BORROW)
+family("fam_tensor_transpose_from", "tensors::indexing::TensorTranspose<f64, &%s>" % Tm, 'TensorTranspose::from(&t, ["c", "r"])',
+       "TensorView::from(v).iter().count()", False, BORROW)
+family("fam_matrix_ref_tensor", MV + "<f64, MatrixRefTensor<f64, &%s>>" % Tm, "MatrixView::from(MatrixRefTensor::from(&t))",
+       "v.row_major_iter().count()", False, BORROW)
+# an iterator over a view that borrows the tensor pins the tensor as well
+family("fam_tensor_view_iter", TI + "TensorIterator<f64, %s>" % (TVm % ("&" + Tm)), "t.view()", "v.iter().count()", False, BORROW,
+       skip=("E0505", "E0506", "E0597"))
+# ---- tensor views and adaptors over a mutable borrow
+for key, mk, src in (
+        ("view_mut", "t.view_mut()", "&mut " + Tm),
+        ("view_from_mut", "TensorView::from(&mut t)", "&mut " + Tm),
+        ("range_mut", 't.range_mut([("r", 0..1)]).unwrap()', "TensorRange<f64, &mut %s>" % Tm),
+        ("mask_mut", 't.mask_mut([("r", 0..1)]).unwrap()', "TensorMask<f64, &mut %s>" % Tm),
+        ("reverse_mut", 't.reverse_mut(&["r"])', "TensorReverse<f64, &mut %s>" % Tm),
+        ("select_mut", 't.select_mut([("r", 0)])', "TensorIndex<f64, &mut %s>" % Tm),
+        ("expand_mut", 't.expand_mut([(0, "z")])', "TensorExpansion<f64, &mut %s>" % Tm)):
+    family("fam_tensor_" + key, TVm % src, mk, "v.iter().count()", True, BORROW)
+family("fam_tensor_index_by_mut", "tensors::indexing::TensorAccess<f64, &mut %s>" % Tm, 't.index_by_mut(["c", "r"])', "v.iter().count()",
+       True, BORROW)
+family("fam_tensor_index_mut", "tensors::indexing::TensorAccess<f64, &mut %s>" % Tm, "t.index_mut()", "v.iter().count()", True, BORROW)
+family("fam_matrix_ref_tensor_mut", MV + "<f64, MatrixRefTensor<f64, &mut %s>>" % Tm, "MatrixView::from(MatrixRefTensor::from(&mut t))",
+       "v.row_major_iter().count()", True, BORROW)
+# ---- matrix iterators (E0502 / E0499 / E0597 exist from session 1 under other names: only what was missing)
+MAT_SHARED = (("column_iter(0)", "ColumnIterator"), ("row_iter(0)", "RowIterator"),
+              ("column_major_iter()", "ColumnMajorIterator"), ("row_major_iter()", "RowMajorIterator"),
+              ("diagonal_iter()", "DiagonalIterator"),
+              ("column_reference_iter(0)", "ColumnReferenceIterator"), ("row_reference_iter(0)", "RowReferenceIterator"),
+              ("column_major_reference_iter()", "ColumnMajorReferenceIterator"),
+              ("row_major_reference_iter()", "RowMajorReferenceIterator"),
+              ("diagonal_reference_iter()", "DiagonalReferenceIterator"))
+MAT_MUT = (("column_reference_mut_iter(0)", "ColumnReferenceMutIterator"), ("row_reference_mut_iter(0)", "RowReferenceMutIterator"),
+           ("column_major_reference_mut_iter()", "ColumnMajorReferenceMutIterator"),
+           ("row_major_reference_mut_iter()", "RowMajorReferenceMutIterator"),
+           ("diagonal_reference_mut_iter()", "DiagonalReferenceMutIterator"))
+for meth, decl in MAT_SHARED:
+    family("fam_matrix_" + meth.split("(")[0], MI + decl, "m." + meth, "v.count()", False, BC, c="m", new=NEW_M,
+           skip=("E0502", "E0597"))
+for meth, decl in MAT_MUT:
+    family("fam_matrix_" + meth.split("(")[0], MI + decl, "m." + meth, "v.count()", True, BC, c="m", new=NEW_M,
+           skip=("E0499", "E0502", "E0597"))
+for meth, decl in (MAT_SHARED[2], MAT_SHARED[3], MAT_SHARED[7], MAT_SHARED[8]):
+    family("fam_matrix_%s_with_index" % meth.split("(")[0], "WithIndex<%s%s<f64, %s>>" % (MI, decl, Mm), "m.%s.with_index()" % meth,
+           "v.count()", False, "C20_adaptors_store_source", c="m", new=NEW_M)
+for meth, decl in (MAT_MUT[2], MAT_MUT[3]):
+    family("fam_matrix_%s_with_index" % meth.split("(")[0], "WithIndex<%s%s<f64, %s>>" % (MI, decl, Mm), "m.%s.with_index()" % meth,
+           "v.count()", True, "C20_adaptors_store_source", c="m", new=NEW_M)
+# ---- matrix views and adaptors
+MVm = MV + "<f64, %s>"
+for key, mk, src in (
+        ("view_from", "MatrixView::from(&m)", "&" + Mm),
+        ("range", "m.range(0..1, 0..1)", "MatrixRange<f64, &%s>" % Mm),
+        ("reverse", "m.reverse(Reverse { rows: true, columns: false })", "MatrixReverse<f64, &%s>" % Mm),
+        ("range_from", "MatrixView::from(MatrixRange::from(&m, 0..1, 0..1))", "MatrixRange<f64, &%s>" % Mm),
+        ("reverse_from", "MatrixView::from(MatrixReverse::from(&m, Reverse { rows: true, columns: false }))", "MatrixReverse<f64, &%s>" % Mm),
+        ("range_of_view", "MatrixView::from(&m).range_owned(0..1, 0..1)", "MatrixRange<f64, %s>" % (MVm % ("&" + Mm)))):
+    family("fam_matrix_" + key, MVm % src, mk, "v.row_major_iter().count()", False, BORROW, c="m", new=NEW_M)
+family("fam_tensor_ref_matrix", TVm % ("TensorRefMatrix<f64, &%s, RowAndColumn>" % Mm),
+       "TensorView::from(TensorRefMatrix::from(&m).unwrap())", "v.iter().count()", False, BORROW, c="m", new=NEW_M)
+for key, mk, src in (
+        ("view_from_mut", "MatrixView::from(&mut m)", "&mut " + Mm),
+        ("range_mut", "m.range_mut(0..1, 0..1)", "MatrixRange<f64, &mut %s>" % Mm),
+        ("reverse_mut", "m.reverse_mut(Reverse { rows: true, columns: false })", "MatrixReverse<f64, &mut %s>" % Mm)):
+    family("fam_matrix_" + key, MVm % src, mk, "v.row_major_iter().count()", True, BORROW, c="m", new=NEW_M)
+family("fam_tensor_ref_matrix_mut", TVm % ("TensorRefMatrix<f64, &mut %s, RowAndColumn>" % Mm),
+       "TensorView::from(TensorRefMatrix::from(&mut m).unwrap())", "v.iter().count()", True, BORROW, c="m", new=NEW_M)
+family("fam_matrix_partition", "MatrixPart", "m.partition(&[1], &[])", "v.len()", True, BC, c="m", new=NEW_M,
+       again="let w = m.partition(&[], &[1])")
+family("fam_matrix_partition_quadrants", "MatrixQuadrants", "m.partition_quadrants(1, 1)", "v.top_left.size()", True,
+       "C20_quadrants_carry_source_lifetime", c="m", new=NEW_M)
+# ---- record containers: their record iterators and views pin the container
+RT_NEW = "RecordTensor::variables(&list, %s)" % NEW_T2
+RM_NEW = "RecordMatrix::variables(&list, %s)" % NEW_M
+PRE = "let list = WengertList::new();\n    "
+family("fam_record_tensor_iter_as_records", "AsRecords", "x.iter_as_records()", "v.count()", False, BC, c="x", new=RT_NEW, pre=PRE,
+       mutate="x.reset()", read="let n = x.view().shape()")
+family("fam_record_tensor_iter_as_records_with_index", "AsRecords", "x.iter_as_records().with_index()", "v.count()", False, BC, c="x",
+       new=RT_NEW, pre=PRE, mutate="x.reset()", read="let n = x.view().shape()")
+family("fam_record_matrix_iter_row_major_as_records", "AsRecords", "x.iter_row_major_as_records()", "v.count()", False, BC, c="x",
+       new=RM_NEW, pre=PRE, mutate="x.reset()", read="let n = x.view().size()")
+family("fam_record_matrix_iter_column_major_as_records", "AsRecords", "x.iter_column_major_as_records()", "v.count()", False, BC, c="x",
+       new=RM_NEW, pre=PRE, mutate="x.reset()", read="let n = x.view().size()")
+family("fam_record_tensor_view", TV + "<(f64, f64), &RecordTensor<f64, %s<(f64, f64)>>>" % T, "x.view()", "v.shape()", False, BORROW, c="x",
+       new=RT_NEW, pre=PRE, mutate="x.reset()", read="let n = x.iter_as_records().count()")
+family("fam_record_matrix_view", MV + "<(f64, f64), &RecordMatrix<f64, %s<(f64, f64)>>>" % M, "x.view()", "v.size()", False, BORROW, c="x",
+       new=RM_NEW, pre=PRE, mutate="x.reset()", read="let n = x.iter_row_major_as_records().count()")
+
+# (ii) records and record containers cannot outlive their tape, also through derived values
+outlive("record_negated_outlives_tape", "C20_borrow_carried", "differentiation::Record", U_D,
+        "list = WengertList::new()", "-Record::variable(1.0f64, &list)", "let _ = v.number")
+outlive("record_plus_scalar_outlives_tape", "C20_borrow_carried", "differentiation::Record", U_D,
+        "list = WengertList::new()", "Record::variable(1.0f64, &list) + 2.0", "let _ = v.number")
+outlive("record_from_container_iterator_outlives_tape", "C20_borrow_carried", "differentiation::Record", U_D,
+        "list = WengertList::new()", "{ let x = %s; let r: Vec<Record<f64>> = x.iter_as_records().collect(); r }" % RT_NEW.replace(NEW_T2, NEW_T),
+        "let _ = v.len()")
+outlive("record_from_matrix_container_iterator_outlives_tape", "C20_borrow_carried", "differentiation::Record", U_D,
+        "list = WengertList::new()", "{ let x = %s; let r = x.iter_row_major_as_records().next().unwrap(); r }" % RM_NEW,
+        "let _ = v.number")
+outlive("record_tensor_of_records_outlives_tape", "C20_borrow_carried", "differentiation::Record", U_D,
+        "list = WengertList::new()", "Tensor::from([(\"x\", 1)], vec![Record::variable(1.0f64, &list)])", "let _ = v.shape()")
+outlive("record_tensor_from_records_outlives_tape", "C20_borrow_carried", "differentiation::container_record::RecordContainer", U_D,
+        "list = WengertList::new()", "RecordTensor::from_iter([(\"x\", 1)], vec![Record::variable(1.0f64, &list)].into_iter()).unwrap()",
+        "let _ = v.view().shape()")
+outlive("record_tensor_mapped_outlives_tape", "C20_borrow_carried", "differentiation::container_record::RecordContainer", U_D,
+        "list = WengertList::new()", "{ let x = %s; x.map(|r| r * r).unwrap() }" % RT_NEW.replace(NEW_T2, NEW_T), "let _ = v.view().shape()")
+outlive("record_matrix_mapped_outlives_tape", "C20_borrow_carried", "differentiation::container_record::RecordContainer", U_D,
+        "list = WengertList::new()", "{ let x = %s; x.map(|r| r * r).unwrap() }" % RM_NEW, "let _ = v.view().size()")
+outlive("record_tensor_derivatives_outlive_tape_ok", "C20_owning_types_lifetime_free", "differentiation::Derivatives", U_D,
+        "list = WengertList::new()", "{ let x = %s; x.map(|r| r * r).unwrap().derivatives() }" % RT_NEW.replace(NEW_T2, NEW_T), "let _ = v", expect="compile")
+outlive("record_number_outlives_tape_ok", "C20_owning_types_lifetime_free", "differentiation::Trace", U_D,
+        "list = WengertList::new()", "(Record::variable(1.0f64, &list) * 3.0).number", "let _ = v", expect="compile")
+conflict("tape_moved_while_record_matrix_alive", "C20_borrow_carried", "differentiation::container_record::RecordContainer", U_D,
+         "list = WengertList::new()", RM_NEW, "drop(list)", "let _ = v.view().size()", "error E0505")
+conflict("tape_replaced_while_record_alive", "C20_borrow_carried", "differentiation::Record", U_D,
+         "mut list = WengertList::new()", "Record::variable(1.0f64, &list)", "list = WengertList::new()", "let _ = v.number", "error E0506")
+conflict("tape_replaced_while_record_tensor_alive", "C20_borrow_carried", "differentiation::container_record::RecordContainer", U_D,
+         "mut list = WengertList::new()", RT_NEW, "list = WengertList::new()", "let _ = v.view().shape()", "error E0506")
+conflict("tape_mutably_borrowed_while_record_alive", "C20_borrow_carried", "differentiation::Record", U_D,
+         "mut list = WengertList::new()", "Record::variable(1.0f64, &list)", "let w = &mut list", "let _ = v.number", "error E0502")
+conflict("tape_moved_while_derived_record_alive", "C20_borrow_carried", "differentiation::Record", U_D,
+         "list = WengertList::new()", "Record::variable(1.0f64, &list) * Record::constant(2.0)", "drop(list)", "let _ = v.number", "error E0505")
 
 
 def main():
